@@ -166,7 +166,7 @@ PROPERTIES = {
                            "children are moved into an inner Any tagged prio = -2 and the default branch keeps exactly the default "
                            "child (partition), plain Any otherwise; the default is recorded. Lean: dominance_two_level. bounded "
                            "stand-in: default_prios, _vectors_from_prios through select (sequences, batches, named groups) and the "
-                           "lexicographic ranking of ALL pairs of feasible points of small configurators. ADDED: StingyConfigurator.default_prios (tag or -1 for every flattened node, over the assumed flatten contract) and ge_polyhedron_config._vectors_from_prios (the [default vector, user row] stack handed to the shadow compression; compression itself replaced by a recorder) under contract with replay."},
+                           "lexicographic ranking of ALL pairs of feasible points of small configurators. ADDED: StingyConfigurator.default_prios (tag or -1 for every flattened node, over the assumed flatten contract) and ge_polyhedron_config._vectors_from_prios (the [default vector, user row] stack handed to the shadow compression; compression itself replaced by a recorder) under contract with replay. ADDED: the objective vector end to end -- the real _vectors_from_prios including the real shadow compression over the executable form of A-rs2 (2-3 columns, symbolic default levels in {-1,-2}, symbolic user priorities): sign, equal levels equal weights, dominance of every level over the sum of all lower levels (the premise of the Lean lemma dominance_two_level)."},
     "C15": {"harness_modules": ["contracts.c15", "contracts.c14"],
             "harness_filter": only("AtLeast.solve", "ge_polyhedron_config.select", "StingyConfigurator.select",
                                    "ge_polyhedron_config._vectors_from_prios"),
